@@ -17,8 +17,12 @@ Typical use (see notes/BASE_READY.md):
 Selectors (all optional except that exactly one site must remain):
     lhs="text"     canonical rendering of the assigned l-value (`s_x[i]->lg`, `muhalf`, `r3[1]`; `this->` is dropped)
     ret=True       the expression of a `return`
-    case=K         the statement is under `case K:` of a switch (labels active since the last top-level break)
+    case=K         the statement is under `case K:` of a switch (labels active since the last top-level break); K is the
+                   integer value or, for enumerators, the name (case="TYPE_B0")
     nth=N          N-th (0-based, source order) of the remaining sites;  without nth the match must be unique
+    kind=K         'assign' | 'init' | 'compound' | 'return'
+    increment=True (argument of Function.leaf) the statement must be `x += e` / `x -= e`; the leaf is the increment e / -e
+                   (for accumulations such as `LGAMMA[i0] += ...` inside a loop)
     under=[...]    every given string must occur among the canonical renderings of the enclosing if-conditions
                    (an else-branch condition is rendered as `!(cond)`)
 A compound assignment `x op= e` directly following (same block) an assignment to x is folded: the site's value is
@@ -499,6 +503,8 @@ class Function:
                 else:
                     lab = render(inner[0])
                 labs.add(str(lab))
+                if v.get("kind") == "DeclRefExpr":          # enumerator / named constant: also selectable by name (case="TYPE_B0")
+                    labs.add(render(v))
                 n = inner[-1] if len(inner) > 1 else None
         return frozenset(labs), n
 
@@ -530,13 +536,23 @@ class Function:
         return cands[nth]
 
     # ---- translation
-    def leaf(self, name, vars=None, inline=None, consts=None, allow_new_vars=True, auto_inline=False, **sel):
+    def leaf(self, name, vars=None, inline=None, consts=None, allow_new_vars=True, auto_inline=False, increment=False, **sel):
         """auto_inline: a local variable (VarDecl) that is not listed in vars/inline/consts and has exactly one
         assignment/initialisation in the function is replaced by that right-hand side (so introducing or removing a
         temporary is invisible)."""
+        if increment:
+            sel.setdefault("kind", "compound")
         site = self.select(**sel)
         tr = _Translator(self, list(vars or []), dict(inline or {}), dict(consts or {}), allow_new_vars, auto_inline)
-        e = tr.site_value(site)
+        if increment:
+            # `x += e` (or `x -= e`): the leaf is the increment e (resp. -e), not the accumulated value
+            if site.kind != "compound" or site.op not in ("+=", "-="):
+                raise LeafError("%s: increment=True needs a `+=`/`-=` statement for %s" % (self.name, site.lhs))
+            e = tr.tr(site.node)
+            if site.op == "-=":
+                e = ('neg', e)
+        else:
+            e = tr.site_value(site)
         return Leaf(name, e, tr.vars, [c for t, c in site.conds if t == "if"], sorted(site.cases), self, site)
 
 
